@@ -9,7 +9,7 @@ from . import core, probe
 REFUSALS = (ValueError, TypeError, IndexError, NotImplementedError)
 
 
-def call(api, fn, *args, prop=None, tags=(), detail=None, refusals=(), **kwargs):
+def call(api, fn, *args, prop=None, tags=(), detail=None, refusals=(), refusal_pred=None, **kwargs):
     """Run fn(*args, **kwargs) on an admissible input.  Returns (ok, result).  An exception escaping is a
     violation (`exception`) of `prop` unless its type is listed in `refusals` (a documented refusal for this
     input class)."""
@@ -23,6 +23,9 @@ def call(api, fn, *args, prop=None, tags=(), detail=None, refusals=(), **kwargs)
         probe.S.busy = 0
         probe.S.depth = 0
         del probe.S.targets[:]
+        if refusal_pred is not None and refusal_pred(e):  # a documented give-up of a heuristic, established from hooked state
+            c.events['refused:' + api + ':' + type(e).__name__ + ':by_predicate'] += 1
+            return False, None
         if os.environ.get('VERIF_DEBUG'):
             import traceback
             traceback.print_exc()
